@@ -563,8 +563,11 @@ func (mf *MultiFileAppendable) appendableFor(off int64) (appendable.Appendable, 
 	if appID == mf.currAppID {
 		metricsCacheHit.Inc()
 		mf.maybePrefetchAheadLocked(appID)
+		// currApp is reassigned by Append on chunk rotation: it must be read
+		// while the mutex is still held
+		app := mf.currApp
 		mf.mutex.Unlock()
-		return mf.currApp, nil
+		return app, nil
 	}
 
 	// Cache hit fast path.
